@@ -5,55 +5,60 @@
 (*                                                                         *)
 (* Code                                   action / operator here           *)
 (* -------------------------------------  -------------------------------- *)
-(* randoms.py  RandomsBase.__init__       Store: self.weights = weights;   *)
-(*                                          self.redshifts = redshifts     *)
-(*                                          (both kept AS PASSED)          *)
+(* randoms.py  RandomsBase.__init__       Store: self.weights =            *)
+(*                                          np.asarray(weights); same for  *)
+(*                                          redshifts (BOTH cast to arrays)*)
 (*             _draw_attributes(n):                                        *)
 (*               idx = rng.integers(0, n) DrawIndex(i)  one index for both *)
 (*               self.weights[idx]        LookupW                          *)
 (*               self.redshifts[idx]      LookupZ                          *)
 (*                                                                         *)
-(* What `values[idx]` means depends on the CONTAINER the user passed:      *)
-(*   "ndarray"      numpy array (any dtype)            -> by POSITION      *)
-(*   "series"       pandas Series, default RangeIndex  -> by label = pos.  *)
+(* The user may pass each sample set in any CONTAINER:                     *)
+(*   "ndarray"      numpy array (any dtype)                                *)
+(*   "series"       pandas Series, default RangeIndex                      *)
 (*   "series_perm"  pandas Series whose integer index is a permutation of  *)
 (*                  0..n-1 (column of a sorted / shuffled data frame       *)
-(*                  without reset_index)               -> by LABEL         *)
-(* A source table has the positions 1..NRows; sc.ix[p] is the index label  *)
-(* at position p (the identity unless the container is "series_perm").     *)
-(* The property: the weight and the redshift of a drawn point come from    *)
-(* the same POSITION of the table as passed (a source row).  Whether the   *)
-(* lookups go by label or by position is free - as long as BOTH do the     *)
-(* same.                                                                   *)
+(*                  without reset_index); sc.ix[p] = label at position p   *)
+(*   "series_other" pandas Series whose index is not 0..n-1 at all         *)
+(*                  (filtered frame, string labels)                        *)
+(*   "list", "tuple" Python sequences                                      *)
+(* and the two sets need not come in the same container.  A source table   *)
+(* has the positions 1..NRows.  The property: the weight and the redshift  *)
+(* of a drawn point come from the same POSITION of the tables as passed (a *)
+(* source row), for every container, and no draw is refused.               *)
+(* The design: both sets are converted to arrays at construction, both     *)
+(* lookups go by position.  What `values[idx]` does on the object AS       *)
+(* PASSED depends on the container: position (ndarray, series), LABEL      *)
+(* (series_perm), KeyError (series_other), TypeError (list, tuple).        *)
 (*                                                                         *)
-(* Every case (container, index labels, drawn index) is printed with the   *)
+(* Every case (containers, index labels, drawn index) is printed with the  *)
 (* positions the two lookups hit; the driver evaluates it on the real      *)
 (* BoxRandoms / HealPixRandoms.                                            *)
 (*                                                                         *)
 (* Deviations:                                                             *)
-(*   "WeightsCastAtConstruction"  the constructor converts the weights to  *)
-(*                                a numpy array (np.asarray...), the       *)
+(*   "LookupAsPassed"             both sets stored as passed (code before  *)
+(*                                fix R3): mixed containers pair a weight  *)
+(*                                by label with a redshift by position;    *)
+(*                                lists / other indices raise at the draw  *)
+(*   "WeightsCastAtConstruction"  only the weights are converted, the      *)
 (*                                redshifts stay as passed  (seed C16-K)   *)
-(*   "SamplesCastAtConstruction"  admissible alternative design: BOTH      *)
-(*                                sample sets are converted to numpy       *)
-(*                                arrays (both lookups by position);       *)
-(*                                JointRow holds, other rows are drawn     *)
 (***************************************************************************)
 EXTENDS Naturals, Sequences, FiniteSets, TLC
 
 CONSTANTS NRows,        \* rows of the source table
-          Containers,   \* subset of {"ndarray", "series", "series_perm"}
+          Containers,   \* subset of {"ndarray", "series", "series_perm", "series_other", "list", "tuple"}
           Deviations
 
-VARIABLES sc,     \* [c: container of both attribute samples, ix: index labels by position]
+VARIABLES sc,     \* [cw: container of the weights, cz: container of the redshifts, ix: index labels by position]
           stw,    \* how self.weights is stored: a container kind
           stz,    \* how self.redshifts is stored
-          idx,    \* the drawn index (0: not drawn yet); a LABEL or a POSITION, depending on the container
-          pw,     \* position of the table the weight lookup hit (0: not yet)
+          idx,    \* the drawn index (0: not drawn yet)
+          pw,     \* position of the table the weight lookup hit (0: not yet / raised)
           pz,     \* position the redshift lookup hit
+          err,    \* exception raised by the draw: none | KeyError | TypeError
           pc      \* new | stored | drawn | w | done
 
-vars == <<sc, stw, stz, idx, pw, pz, pc>>
+vars == <<sc, stw, stz, idx, pw, pz, err, pc>>
 
 Dev(d) == d \in Deviations
 
@@ -61,39 +66,45 @@ Rows     == 1..NRows
 Identity == [p \in Rows |-> p]
 Perms    == {f \in [Rows -> Rows] : \A p, q \in Rows : p # q => f[p] # f[q]}
 
-IndexLabels(c) == IF c = "series_perm" THEN Perms \ {Identity} ELSE {Identity}
+(* index labels matter for "series_perm" only (one frame: the same labels for both columns) *)
+IndexLabels(cw, cz) == IF "series_perm" \in {cw, cz} THEN Perms \ {Identity} ELSE {Identity}
 
-(* values[i]: the position of the table that container kind c (index labels ix) returns for index i *)
+(* values[i] on an object stored as container kind c: the position hit, or the exception *)
+Raises(c)        == IF c = "series_other" THEN "KeyError" ELSE IF c \in {"list", "tuple"} THEN "TypeError" ELSE "none"
 Lookup(c, ix, i) == IF c = "series_perm" THEN CHOOSE p \in Rows : ix[p] = i ELSE i
 
-Init == /\ sc \in {[c |-> c, ix |-> ix] : c \in Containers, ix \in Perms}
-        /\ sc.ix \in IndexLabels(sc.c)
+Init == /\ sc \in [cw : Containers, cz : Containers, ix : Perms]
+        /\ sc.ix \in IndexLabels(sc.cw, sc.cz)
         /\ stw = "none" /\ stz = "none"
         /\ idx = 0 /\ pw = 0 /\ pz = 0
+        /\ err = "none"
         /\ pc = "new"
 
-Store ==                    \* RandomsBase.__init__
+Store ==                    \* RandomsBase.__init__: np.asarray(weights), np.asarray(redshifts)
     /\ pc = "new"
-    /\ stw' = IF Dev("WeightsCastAtConstruction") \/ Dev("SamplesCastAtConstruction") THEN "ndarray" ELSE sc.c
-    /\ stz' = IF Dev("SamplesCastAtConstruction") THEN "ndarray" ELSE sc.c
+    /\ stw' = IF Dev("LookupAsPassed") THEN sc.cw ELSE "ndarray"
+    /\ stz' = IF Dev("LookupAsPassed") \/ Dev("WeightsCastAtConstruction") THEN sc.cz ELSE "ndarray"
     /\ pc' = "stored"
-    /\ UNCHANGED <<sc, idx, pw, pz>>
+    /\ UNCHANGED <<sc, idx, pw, pz, err>>
 
 DrawIndex(i) ==             \* idx = self.rng.integers(0, self.data_size, size=probe_size), one element of it
     /\ pc = "stored"
     /\ idx' = i
     /\ pc' = "drawn"
-    /\ UNCHANGED <<sc, stw, stz, pw, pz>>
+    /\ UNCHANGED <<sc, stw, stz, pw, pz, err>>
 
 LookupW ==                  \* data["weights"] = self.weights[idx]
     /\ pc = "drawn"
-    /\ pw' = Lookup(stw, sc.ix, idx)
-    /\ pc' = "w"
+    /\ IF Raises(stw) # "none"
+         THEN err' = Raises(stw) /\ pc' = "done" /\ UNCHANGED pw
+         ELSE pw' = Lookup(stw, sc.ix, idx) /\ pc' = "w" /\ UNCHANGED err
     /\ UNCHANGED <<sc, stw, stz, idx, pz>>
 
 LookupZ ==                  \* data["redshifts"] = self.redshifts[idx]
     /\ pc = "w"
-    /\ pz' = Lookup(stz, sc.ix, idx)
+    /\ IF Raises(stz) # "none"
+         THEN err' = Raises(stz) /\ UNCHANGED pz
+         ELSE pz' = Lookup(stz, sc.ix, idx) /\ UNCHANGED err
     /\ pc' = "done"
     /\ UNCHANGED <<sc, stw, stz, idx, pw>>
 
@@ -107,19 +118,25 @@ Spec == Init /\ [][Next]_vars /\ WF_vars(Next)
 
 ---------------------------------------------------------------------------
 
-TypeOK == /\ sc.c \in Containers /\ sc.ix \in Perms
-          /\ stw \in Containers \cup {"none", "ndarray"} /\ stz \in Containers \cup {"none", "ndarray"}
+Kinds == {"ndarray", "series", "series_perm", "series_other", "list", "tuple"}
+
+TypeOK == /\ Containers \subseteq Kinds
+          /\ sc.cw \in Containers /\ sc.cz \in Containers /\ sc.ix \in Perms
+          /\ stw \in Kinds \cup {"none"} /\ stz \in Kinds \cup {"none"}
           /\ idx \in 0..NRows /\ pw \in 0..NRows /\ pz \in 0..NRows
+          /\ err \in {"none", "KeyError", "TypeError"}
           /\ pc \in {"new", "stored", "drawn", "w", "done"}
 
-(* C16: the drawn (weight, redshift) pair is one row of the table as passed *)
-JointRow == Done => (pw = pz /\ pw \in Rows)
+(* C16: the drawn (weight, redshift) pair is one row of the tables as passed, by position *)
+JointRow == (Done /\ err = "none") => (pw = pz /\ pw \in Rows)
 
-(* every row can be drawn (the lookup is a bijection index -> position) *)
-EveryRowReachable ==
-    \A c \in Containers : \A ix \in IndexLabels(c) : {Lookup(c, ix, i) : i \in Rows} = Rows
+(* a draw from valid samples is never refused *)
+DrawNeverRaises == err = "none"
+
+(* the design draws by position: the drawn index IS the row *)
+ByPosition == (Done /\ err = "none") => pw = idx
 
 Termination == <>Done
 
-PrintDone == Done => PrintT(<<"attrcase", sc, idx, pw, pz>>)
+PrintDone == Done => PrintT(<<"attrcase", sc, idx, pw, pz, err>>)
 =============================================================================
